@@ -45,6 +45,7 @@ import (
 	"github.com/ovh/kmip-go/kmipserver"
 	"github.com/ovh/kmip-go/ttlv"
 
+	"verifharness/internal/model"
 	"verifharness/internal/report"
 	"verifharness/internal/rng"
 	"verifharness/internal/tree"
@@ -1841,6 +1842,10 @@ func runRdr(ctx *Ctx) {
 // ---------------------------------------------------------------------------------------------------------
 
 func runHostile(ctx *Ctx) {
+	// every protocol line of this engine (rdr.dec/decj, plan.dec, lex.xmlr/jsonr, wire.dec) is answered by a pure
+	// function of the line: the model side (2/3 of the engine's time, a few very long documents) is spread over
+	// several model processes
+	model.Workers = max(1, min(6, runtime.NumCPU()/2))
 	if len(ctx.Replay) > 0 {
 		var a32 []arch32Case
 		var deep []deepSpec
@@ -1880,12 +1885,19 @@ func runHostile(ctx *Ctx) {
 		}
 		return
 	}
-	runRdr(ctx)
-	runHTTP(ctx)
-	runShapes(ctx)
-	runTyped(ctx)
-	runDeep(ctx, deepSpecs(ctx.Thor))
-	runArch32(ctx, nil)
+	phase := func(name string, f func()) {
+		t0 := time.Now()
+		f()
+		if os.Getenv("VERIF_PHASE_T") != "" {
+			fmt.Fprintf(os.Stderr, "hostile phase %-7s %6.1fs cases=%d\n", name, time.Since(t0).Seconds(), len(ctx.cases))
+		}
+	}
+	phase("rdr", func() { runRdr(ctx) })
+	phase("http", func() { runHTTP(ctx) })
+	phase("shapes", func() { runShapes(ctx) })
+	phase("typed", func() { runTyped(ctx) })
+	phase("deep", func() { runDeep(ctx, deepSpecs(ctx.Thor)) })
+	phase("arch32", func() { runArch32(ctx, nil) })
 }
 
 var _ = hex.EncodeToString
